@@ -148,8 +148,7 @@ Definition checkS (c : case_t) : bool :=
 
 Definition region (c : case_t) : nat :=
   match c with
-  | CaseCF CalStd _ r b _ _ _ _ =>
-      match b with BNone => if d2n_consistent r then 0%nat else 6%nat | _ => 0%nat end
+  | CaseCF CalStd _ _ _ _ _ _ _ => 0%nat
   | CaseCF cal u r b vals _ _ _ =>
       match impl_bounds_vals b vals with
       | Some v =>
@@ -169,7 +168,6 @@ Definition region (c : case_t) : nat :=
           end
       | None => 0%nat
       end
-  | CaseSY _ _ _ tstep _ _ _ _ _ => if 1000000 <=? tstep then 5%nat else 0%nat
   | _ => 0%nat
   end.
 
